@@ -1,6 +1,7 @@
 ---- MODULE UrlApi ----
 (* The object machine: handles -> (URL record, parameter list).  One action per public call of the Go API:
-   ParseNew, Resolve, the nine setters, the SearchParams mutators (writing through), Clone.
+   ParseNew, Resolve, the nine setters, the SearchParams mutators (writing through), Clone, SetSearchParams (four ways of
+   building the argument), and the mutation of a detached copy of a list (SearchParams.Clone).
    It carries the history properties: C03 (round trip in every reachable state), C04 (well-formedness),
    C05 (setters), C12 (URL <-> list synchronisation), C13 (independence), C19 (derived accessors).
 
@@ -78,6 +79,20 @@ SPOn(os, h, op, n, v) ==
   LET l2 == ListOp(os[h].params, op, n, v) IN
   [os EXCEPT ![h].params = l2, ![h].u.query = UpdateSteps(l2, @)]
 CloneOn(os, h, hn) == [os EXCEPT ![hn] = os[h]]
+(* SetSearchParams(list): the URL's parameter list becomes a COPY of the given list and the query is rewritten from it; the
+   given list object - another URL's live list, a detached copy (SearchParams.Clone) or a fresh value - is neither adopted
+   nor changed, and no other URL changes.  The argument is built in one of four ways (how):
+     "fresh0" : the empty SearchParams value            "fresh" : the empty value with (n, v) appended
+     "copy"   : objs[hs].SearchParams().Clone() with (n, v) appended to the copy before the call
+     "live"   : objs[hs].SearchParams() itself (hs may be h) *)
+XferList(os, hs, how, n, v) == CASE how = "fresh0" -> <<>>
+                                 [] how = "fresh" -> ListOp(<<>>, "append", n, v)
+                                 [] how = "copy" -> ListOp(os[hs].params, "append", n, v)
+                                 [] how = "live" -> os[hs].params
+SetSPOn(os, h, hs, how, n, v) == LET l2 == XferList(os, hs, how, n, v) IN
+                                 [os EXCEPT ![h].params = l2, ![h].u.query = UpdateSteps(l2, @)]
+(* a detached copy of the list (SearchParams.Clone) is mutated and dropped: it holds the mutated list, no URL changes *)
+FlatList(l) == Flat([i \in 1..Len(l) |-> <<l[i][1], l[i][2]>>])
 
 (* ---- actions ---- *)
 Init == objs = [h \in Handles |-> Dead] /\ actor = 0 /\ hist = <<>>
@@ -109,6 +124,16 @@ Clone(h, hn) ==
   /\ LET os == CloneOn(objs, h, hn) IN
      objs' = os /\ actor' = hn /\ Log("clone", hn, h, "", <<>>, <<>>, FALSE, os)
 
+SetSP(h, hs, how, n, v) ==
+  /\ objs[h].live /\ (how \in {"copy", "live"} => hs \in Handles /\ objs[hs].live)
+  /\ LET os == SetSPOn(objs, h, hs, how, n, v)
+     IN objs' = os /\ actor' = h /\ Log("setsp", h, hs, how, n, v, FALSE, os)
+
+SPDetached(h, op, n, v) ==
+  /\ objs[h].live
+  /\ UNCHANGED objs /\ actor' = h
+  /\ hist' = Append(hist, StepRec("spdet", h, 0, op, n, v, FALSE, objs) @@ [ret |-> FlatList(ListOp(objs[h].params, op, n, v))])
+
 (* readers: no state change; the expected result is logged *)
 OptTexts(o) == IF o = None THEN <<>> ELSE <<Get(o)>>
 Reader(h, op, n) ==
@@ -139,6 +164,6 @@ RoundTripAll == \A h \in Live : RoundTripO(POpts, objs[h].u)
 (* C13: an action changes at most the handle it acts on / creates *)
 Independence == [][\A h \in Handles : h # actor' => objs'[h] = objs[h]]_avars
 (* C12: after a list mutation the query is the serialization of the list *)
-WriteThrough == [][\A h \in Handles : (hist' # hist /\ Last(hist').op = "sp" /\ Last(hist').h = h)
+WriteThrough == [][\A h \in Handles : (hist' # hist /\ Last(hist').op \in {"sp", "setsp"} /\ Last(hist').h = h)
                      => QueryText(objs'[h].u) = SerList(objs'[h].params)]_avars
 ====
